@@ -181,8 +181,20 @@ func (ob *OrderBook) MatchAtSinglePrice(matchPrice sdkmath.LegacyDec) (quoteCoin
 		return sdkmath.Int{}, false
 	}
 	quoteCoinDiff = sdkmath.ZeroInt()
-	distributeToTicks := func(ticks []*orderBookTick) {
-		remainingAmt := matchableAmt
+	openAmt := func(ticks []*orderBookTick) sdkmath.Int {
+		amt := sdkmath.ZeroInt()
+		for _, tick := range ticks {
+			for _, order := range tick.orders {
+				amt = amt.Add(order.GetOpenAmount())
+			}
+		}
+		return amt
+	}
+	distributeToTicks := func(ticks []*orderBookTick, amt sdkmath.Int) {
+		remainingAmt := amt
+		if !remainingAmt.IsPositive() {
+			return
+		}
 		for _, tick := range ticks {
 			tickAmt := TotalMatchableAmount(tick.orders, matchPrice)
 			if tickAmt.LTE(remainingAmt) {
@@ -197,9 +209,11 @@ func (ob *OrderBook) MatchAtSinglePrice(matchPrice sdkmath.LegacyDec) (quoteCoin
 			}
 		}
 	}
-	distributeToTicks(ob.buys.ticks)
-	distributeToTicks(ob.sells.ticks)
-	matched = true
+	before := openAmt(ob.sells.ticks)
+	distributeToTicks(ob.sells.ticks, matchableAmt)
+	sold := before.Sub(openAmt(ob.sells.ticks))
+	distributeToTicks(ob.buys.ticks, sold)
+	matched = sold.IsPositive()
 	return
 }
 
@@ -280,17 +294,33 @@ func (ob *OrderBook) Match(lastPrice sdkmath.LegacyDec) (matchPrice sdkmath.Lega
 			si++
 			continue
 		}
-		if buyTickOpenAmt.LTE(sellTickOpenAmt) {
-			quoteCoinDiff = quoteCoinDiff.Add(DistributeOrderAmountToTick(buyTick, buyTickOpenAmt, p))
-			bi++
-		} else {
-			quoteCoinDiff = quoteCoinDiff.Add(DistributeOrderAmountToTick(buyTick, sellTickOpenAmt, p))
+		amt := sdkmath.MinInt(buyTickOpenAmt, sellTickOpenAmt)
+		sellOpenBefore := sdkmath.ZeroInt()
+		for _, order := range sellTick.orders {
+			sellOpenBefore = sellOpenBefore.Add(order.GetOpenAmount())
 		}
-		if sellTickOpenAmt.LTE(buyTickOpenAmt) {
-			quoteCoinDiff = quoteCoinDiff.Add(DistributeOrderAmountToTick(sellTick, sellTickOpenAmt, p))
+		quoteCoinDiff = quoteCoinDiff.Add(DistributeOrderAmountToTick(sellTick, amt, p))
+		sellOpenAfter := sdkmath.ZeroInt()
+		for _, order := range sellTick.orders {
+			sellOpenAfter = sellOpenAfter.Add(order.GetOpenAmount())
+		}
+		sold := sellOpenBefore.Sub(sellOpenAfter)
+		if sold.IsPositive() {
+			quoteCoinDiff = quoteCoinDiff.Add(DistributeOrderAmountToTick(buyTick, sold, p))
+		}
+		if sold.LT(amt) {
+			// the rest is worth less than one quote unit to the remaining sellers of this tick
 			si++
+			if sold.IsZero() {
+				continue
+			}
 		} else {
-			quoteCoinDiff = quoteCoinDiff.Add(DistributeOrderAmountToTick(sellTick, buyTickOpenAmt, p))
+			if buyTickOpenAmt.LTE(sellTickOpenAmt) {
+				bi++
+			}
+			if sellTickOpenAmt.LTE(buyTickOpenAmt) {
+				si++
+			}
 		}
 		matchPrice = p
 		matched = true
